@@ -350,10 +350,18 @@ def run_check(prop, module, tier, seed):
                 inner = tb[-1].filename if tb else ""
                 in_repo = any(os.path.abspath(fr.filename).startswith(os.path.abspath(REPO) + os.sep) for fr in tb[-6:])
                 if not in_repo:
-                    raise
-                where = "; ".join(f"{os.path.relpath(fr.filename, REPO)}:{fr.lineno}" for fr in tb if os.path.abspath(fr.filename).startswith(os.path.abspath(REPO) + os.sep))[-300:]
-                ctx.broken.append(f"the implementation raised {type(e).__name__}: {str(e)[:160]} inside the correspondence run "
-                                  f"(frames: {where}); the run could not be completed")
+                    # the harness itself failed while digesting what the implementation returned (never happens on the
+                    # reference tree, where every generated case is digested): the correspondence cannot be completed, so
+                    # the tie is not established on this tree; go on to the failing-input search instead of giving up
+                    hw = "; ".join(f"{os.path.basename(fr.filename)}:{fr.lineno}" for fr in tb[-3:])
+                    ctx.broken.append(f"the correspondence run could not be completed: the harness raised {type(e).__name__}: "
+                                      f"{str(e)[:160]} while processing the implementation's output ({hw})")
+                    where = None
+                else:
+                    where = "; ".join(f"{os.path.relpath(fr.filename, REPO)}:{fr.lineno}" for fr in tb if os.path.abspath(fr.filename).startswith(os.path.abspath(REPO) + os.sep))[-300:]
+                if where is not None:
+                    ctx.broken.append(f"the implementation raised {type(e).__name__}: {str(e)[:160]} inside the correspondence run "
+                                      f"(frames: {where}); the run could not be completed")
         else:
             ctx.broken.append("model driver could not be built; correspondence not run")
             if hasattr(module, "oracle_only"):
